@@ -113,7 +113,7 @@ Qed.
 
 Lemma not_only_dots_visible b : only_dots b = false -> visible b = [] -> b = [].
 Proof.
-  destruct b as [|x b]; [reflexivity|]. unfold only_dots. intros Ho Hv.
+  destruct b as [|x b]; [reflexivity|]. unfold only_dots. rewrite forallb_dot_agrees. intros Ho Hv.
   rewrite (no_visible_all_dots _ Hv) in Ho. discriminate.
 Qed.
 
